@@ -350,15 +350,24 @@ class ConcCtx(BaseCtx):
     """concrete replay: inputs from a model, the real library"""
     symbolic = False
 
-    def __init__(self, inputs):
+    def __init__(self, inputs, fill=None):
         super().__init__()
         self.inputs = inputs
         self.failures = []
+        self.fill = fill            # None: inputs that are not given are 0; otherwise pseudo-random bits derived from (fill, name)
+        self.used = {}
 
     def _get(self, name):
-        v = self.inputs.get(name, 0)
-        if isinstance(v, str):
-            v = int(v, 16)
+        if name in self.inputs:
+            v = self.inputs[name]
+            if isinstance(v, str):
+                v = int(v, 16)
+        elif self.fill is None:
+            v = 0
+        else:
+            import hashlib
+            v = int.from_bytes(hashlib.shake_256(f'{self.fill}:{name}'.encode()).digest(256), 'big')
+        self.used[name] = v
         return v
 
     def uint(self, name, width):
